@@ -120,7 +120,7 @@ func expectFor(l *model.Log, ref string, mode string, fromPos int) (expectation,
 			if anyRevoked {
 				feats = append(feats, "ref-has-revoked-entries")
 			}
-			if recoveryFixes(l, ref)[p] {
+			if recoveryFixes(l, ref, examined[0])[p] {
 				feats = append(feats, "entry-is-recovery-fix")
 			}
 			return mustReject, fmt.Sprintf("entry #%d (op %d, %s, signer key %d) is not authorised: %s", p, e.OpID, e.Kind, e.Signer, d.Why), feats
@@ -319,7 +319,7 @@ func delegatedAuth(l *model.Log) bool {
 
 // recoveryFixes returns the positions the recovery rule designates as fix
 // entries for ref (first unskipped tree-same entry after a revoked violation).
-func recoveryFixes(l *model.Log, ref string) map[int]bool {
+func recoveryFixes(l *model.Log, ref string, fromPos int) map[int]bool {
 	out := map[int]bool{}
 	pos := l.PositionsForRef(ref)
 	E := l.W.Entries
@@ -330,6 +330,9 @@ func recoveryFixes(l *model.Log, ref string) map[int]bool {
 		return "?" + E[p].Target
 	}
 	i := 0
+	for i < len(pos) && pos[i] < fromPos {
+		i++
+	}
 	for i < len(pos) {
 		p := pos[i]
 		if E[p].Kind != "reference" || out[p] || l.PolicyBefore(p) == nil || l.Decide(p).Authorized || !l.Revoked(p) {
